@@ -4,12 +4,27 @@ import vlib, s1, gen, s1eval
 PROP = "C05"
 EDITS = ["none", "deldir", "flip", "truncate", "append", "addfile", "adddir", "delete", "rename", "relink", "dangle", "swap_f2d",
          "swap_d2f", "below_norec", "uncopy", "rmobj", "rmart", "checkout_other", "lookalike", "movecache", "rmman", "emptied_rmman",
-         "uncommitted", "same_size_old_mtime", "same_size_old_mtime", "rmobj_of_copy", "rmobj_of_copy"]
+         "uncommitted", "same_size_old_mtime", "same_size_old_mtime", "rmobj_of_copy", "rmobj_of_copy", "dir_to_outside_link", "dir_to_outside_link"]
 
 
 def make_cases(rng, tier, n):
     cases, stats = [], {}
     for i in range(n):
+        if i % 14 == 9:
+            # "right after a successful commit every artifact is reported up-to-date", for a pipeline committed through ONE named stage
+            # (everything upstream is committed by recursion) after upstream data changed
+            c = gen.pipeline_project(rng, "st-%d" % i, rng.choice([2, 3]), tier="quick")
+            names = [sp for sp, st in c["stages"]]
+            srcs = [e for e in c["init"] if e[0] == "file"]
+            ops = [("run", False, []), ("commit", rng.choice("lc"), [names[-1]]), ("status", [])]
+            if srcs:
+                ops += [("write", srcs[0][1], "g:%d:9" % rng.randrange(5000, 6000)), ("run", False, []), ("commit", rng.choice("lc"), [names[-1]]), ("status", [])]
+            c["ops"] = ops
+            c["edit"] = "pipeline-targeted-commit"
+            c["shared_in"] = None
+            stats["edit_pipeline-targeted-commit"] = stats.get("edit_pipeline-targeted-commit", 0) + 1
+            cases.append(c)
+            continue
         c = gen.basic_project(rng, "st-%d" % i, tier, stats=stats)
         if rng.random() < 0.25:
             # a directory artifact that is empty (its manifest has no entries)
@@ -89,6 +104,14 @@ def make_cases(rng, tier, n):
                     ops.append(("writeold", f[1], "g:%d:%d" % (int(f[2].split(":")[1]) + 1 + rng.randrange(5), size_of(f[2]))))
                 else:
                     ops.append(("rmobj", "p" + f[1].hex()))
+            else:
+                edit = "none"
+        elif edit == "dir_to_outside_link" and (dirs_in or dart):
+            # a committed directory (the artifact itself or a sub-directory) is replaced by a symbolic link to a directory OUTSIDE the
+            # project that holds the same names and bytes: the entry is a link now, not the committed directory
+            tgt = rng.choice([d[1] for d in dirs_in] + [a[0] for a in dart if "r" not in a[1]] * 2) if (dirs_in or dart) else None
+            if tgt and not any("r" in a[1] and tgt.startswith(a[0] + b"/") for a in dart):
+                ops.append(("dirlink", tgt))
             else:
                 edit = "none"
         elif edit == "lookalike" and files and strat == "l":
@@ -236,6 +259,22 @@ def oracle(run):
     v = []
     steps = run["steps"]
     if not steps or steps[0]["rc"] != 0:
+        return v
+    if run["case"].get("edit") == "pipeline-targeted-commit":
+        from C08 import upstream
+        case = run["case"]
+        names = [sp for sp, st in case["stages"]]
+        for k, s in enumerate(steps):
+            if s["op"][0] != "status" or s["rc"] != 0 or k == 0 or steps[k - 1]["op"][0] != "commit" or steps[k - 1]["rc"] != 0:
+                continue
+            tg = [names.index(t) for t in steps[k - 1]["op"][2]] if steps[k - 1]["op"][2] else list(range(len(names)))
+            scope = upstream(case["edges"], tg)
+            got = s1eval.status_of(s)
+            for i_ in sorted(scope):
+                for p, fl in case["stages"][i_][1].get("out", []):
+                    if p in got and got[p]["stage"] == names[i_] and not (got[p]["tree"]["cm"] and human_uptodate(got[p]["text"])):
+                        v.append(("debug", "right after a successful `%s` status reports output %s of stage %s (in its scope) as %r / ContentsMatch=%s" % (
+                            s1.op_text(steps[k - 1]["op"]), p.decode(), names[i_].decode(), got[p]["text"], got[p]["tree"]["cm"])))
         return v
     if steps[0]["op"][0] != "commit":
         # nothing was ever committed: no artifact is up to date
